@@ -575,7 +575,7 @@ static void* wd_main(void* arg) {
   const long wake_spin_limit = vp_param("wake_spin_limit", 500000000L);
   int viol_linger = 0;
   const long relax_limit = vp_param("relax_limit", 4000000000L);
-  int q_streak = 0;
+  int q_streak = 0, iq_streak = 0;
   for (;;) {
     vp_real_sleep_us(5000);
     if (atomic_load(&g_done) || atomic_load(&g_finishing)) return NULL;
@@ -600,6 +600,17 @@ static void* wd_main(void* arg) {
         }
       } else {
         q_streak = 0;
+      }
+      if (vp_ghost_idle_but_queued()) {
+        if (++iq_streak >= 6 && !atomic_load(&g_done)) {
+          vp_violation("C02", "ghost:queued-while-all-idle",
+                       "every kernel thread keeps idling (no switch or wake-up anywhere) while %ld wake-up(s) are pending and the run queues hold %ld entr%s: a runnable fiber is never run",
+                       vp_ghost_pending_total(), fiber_verif_runqueue_total(), fiber_verif_runqueue_total() == 1 ? "y" : "ies");
+          vp_ghost_dump(stderr, 40);
+          vp_finish();
+        }
+      } else {
+        iq_streak = 0;
       }
     }
     if (vp_cfg.mode != VP_MODE_NOHOOK) {
